@@ -98,7 +98,16 @@ T5Write(p, st) == /\ "T5write" \in Timers /\ pc[p] = st \o "_pay" /\ Stalled /\ 
                   /\ Kind(p, st) \in {"close", "pong"}
                   /\ closed' = TRUE /\ tl' = "exited"
                   /\ U(<<closing, sentClose, lk, out, emitting, inq, pc, pingActive, pongSig, peerDid, ret, wframe, armedW, cancelled, fired>>)
+(* the 5 s context of a control-frame write bounds the wait for the frame lock as well: when it expires mu.lock starts the    *)
+(* asynchronous closer (go c.close()) and the write fails; without the AC process its close() is collapsed into the flag flip *)
+T5WriteLock(p, st, after) ==
+                  /\ "T5write" \in Timers /\ pc[p] = st \o "_wflock" /\ lk["wf"] # "free" /\ ~closed
+                  /\ Kind(p, st) \in {"close", "pong"}
+                  /\ IF AC \in Extra THEN pc' = [pc EXCEPT ![p] = after, ![AC] = IF @ = "ac_idle" THEN "ac_cl0" ELSE @] /\ U(closed)
+                     ELSE Goto(p, after) /\ closed' = TRUE
+                  /\ U(<<closing, sentClose, lk, out, emitting, inq, pingActive, pongSig, peerDid, ret, tl, wframe, armedW, cancelled, fired>>)
 Frame(p, st, after) == FrameLock(p, st, after) \/ FrameArm(p, st) \/ FrameHdr(p, st) \/ FramePay(p, st) \/ T5Write(p, st)
+                       \/ T5WriteLock(p, st, after)
                        \/ FrameDisarm(p, st) \/ FrameUnlock(p, st, after)
 ----------------------------------------------------------------------------
 (* writer: msgWriter.reset (message lock), FramesOf[w] frames, unlock *)
